@@ -87,6 +87,7 @@ pub const E_ARGS: u32 = libc::vshim::eh(3);
 pub fn kdeliver_lr() {
     unsafe {
         let before = (D::bad_count, D::bad_order, D::bad_conv, D::bad_args);
+        vshim::sys_point(); // the kernel picks its moment
         kdeliver();
         let after = (D::bad_count, D::bad_order, D::bad_conv, D::bad_args);
         if before != after && vshim::round() < D::bad_round {
@@ -106,33 +107,6 @@ fn interrupt(kind: u8, var: usize) {
 pub mod proofs {
     use super::*;
 
-    #[kani::proof]
-    #[kani::stub(alloc::alloc::dealloc_nonnull, noop_dealloc)]
-    #[kani::unwind(10)]
-    pub fn c04_lr_dbg() {
-        reg::init_globals();
-        unsafe {
-            D::prev_h = H1;
-            D::prev_flags = libc::SA_RESTART;
-            K::disp[SA as usize].handler = H1;
-            K::disp[SA as usize].flags = libc::SA_RESTART;
-            vshim::ST::mirror_ptrs = true;
-        }
-        libc::model::share_disp(SA);
-        vshim::set_mode_lr(2, 3, 0);
-        vshim::thread_start(0);
-        let a = ok(unsafe { register(SA, || hit(1)) });
-        kani::cover!(vshim::consistent(), "T0 alone consistent");
-        let r0 = vshim::round();
-        vshim::thread_start(1);
-        kdeliver_lr();
-        kani::cover!(vshim::consistent(), "T0+T1 consistent");
-        kani::cover!(vshim::consistent() && r0 == 1, "T0 used round 1");
-        kani::cover!(vshim::consistent() && vshim::round() == 1, "T1 used round 1");
-        kani::cover!(unsafe { D::bad_count }, "bad count somewhere");
-        kani::cover!(unsafe { D::bad_count } && vshim::consistent(), "bad count consistent");
-        core::mem::forget(a);
-    }
 
     /// Lal-Reps: thread 0 performs the first registration of SA (then of SB),
     /// thread 1 receives SA twice, anywhere in between - including crossing
